@@ -26,9 +26,11 @@ def runOne (j : Json) : Except String Json := do
 def evalOne (j : Json) : Except String Json := do
   let ev ← parseOracle j "oracle"
   let es ← (← getArr j "exprs").toList.mapM (fun e => e.getStr?)
-  let rs := evalAll ev es
-  pure (Json.arr (rs.map (fun r => Json.mkObj [("expr", Json.str r.expr), ("failed", Json.bool r.failed),
-                                                ("ty", Json.str r.ty), ("value", Json.str r.value)])).toArray)
+  let src := (getOptStr j "source").toOption.join.getD "WATCH"
+  let rs := evalAll src ev Collect.plain es
+  pure (Json.arr (rs.map (fun r => Json.mkObj [("expr", Json.str r.expr), ("source", Json.str r.source),
+      ("hasResult", Json.bool r.hasResult), ("error", optStrJ r.error), ("ty", Json.str r.ty),
+      ("value", Json.str r.logStr)])).toArray)
 
 def handle (j : Json) : Except String Json := do
   let op ← getStr j "op"
@@ -43,6 +45,9 @@ def handle (j : Json) : Except String Json := do
     let names ← (← getArr j "names").toList.mapM (fun r => do
       pure ((← getStr r "n"), (← getBool r "locals"), (← getBool r "globals"), (← getBool r "builtins"),
             (← getBool r "agent")))
+    -- is the occurrence of the name inside a nested scope of the expression (lambda body)?
+    let nestedOf ← (← getArr j "names").toList.mapM (fun r => do
+      pure (match r.getObjVal? "nested" with | .ok (.bool b) => b | _ => false))
     let tbl (pick : String × Bool × Bool × Bool × Bool → Bool) (tag : String) : String → Option String :=
       fun n => match names.find? (fun r => r.1 == n) with
         | some r => if pick r then some tag else none
@@ -50,7 +55,7 @@ def handle (j : Json) : Except String Json := do
     let f : Frame String := ⟨tbl (·.2.2.1) "globals", tbl (·.2.1) "locals"⟩
     let a : Agent String := ⟨tbl (·.2.2.2.2) "agent", tbl (·.2.2.2.2) "agent"⟩
     let b := tbl (·.2.2.2.1) "builtins"
-    let res := names.map (fun r => (resolve (handlerEnv f a) b r.1).getD "NameError")
+    let res := (names.zip nestedOf).map (fun (r, nst) => (resolveAt nst (handlerEnv f a) b r.1).getD "NameError")
     pure (Json.mkObj [("resolved", strs res), ("globals", Json.str (srcName evalGlobals)),
                       ("locals", Json.str (srcName evalLocals))])
   | "evalall" => evalOne j
